@@ -44,6 +44,7 @@ func verifC17Dial() {
 	if vBool() {
 		callerSN = "caller.example"
 	}
+	callerECHSnap := append([]byte(nil), callerECH...) // the list as the caller wrote it
 	tc := &tls.Config{ServerName: callerSN, EncryptedClientHelloConfigList: callerECH, NextProtos: []string{"h2"}}
 
 	// resolution result: record 0 -> address 10.0.0.1, record 1 -> target t1 -> 10.0.0.2; plain address 10.0.0.1
@@ -60,7 +61,7 @@ func verifC17Dial() {
 		if vBool() {
 			h.ECH = []byte{0xD0, byte(i)}
 		}
-		echOf[addr] = h.ECH
+		echOf[addr] = append([]byte(nil), h.ECH...) // snapshot: the record's bytes must never change either
 		res.HTTPS = append(res.HTTPS, h)
 	}
 	retryList := []byte{0x4E, 0x77}
@@ -80,7 +81,7 @@ func verifC17Dial() {
 		if prevRetry {
 			vAssert(vBytesEq(ech, retryList), "the retry uses exactly the server's retry configs")
 		} else if callerECH != nil {
-			vAssert(vBytesEq(ech, callerECH), "caller-supplied ECH config list is never replaced")
+			vAssert(vBytesEq(ech, callerECHSnap), "caller-supplied ECH config list is never replaced")
 		} else if rec, ok := echOf[addr]; ok && rec != nil {
 			vAssert(vBytesEq(ech, rec), "ECH config list is the one of the HTTPS record that produced the address")
 		} else if publicName == "" {
@@ -112,7 +113,14 @@ func verifC17Dial() {
 			vAssert(!(calls[i].addr == calls[i+1].addr && calls[i+1].addr == calls[i+2].addr), "at most one retry per address")
 		}
 	}
-	vAssert(tc.ServerName == callerSN && vBytesEq(tc.EncryptedClientHelloConfigList, callerECH) && (tc.EncryptedClientHelloConfigList == nil) == (callerECH == nil) && len(tc.NextProtos) == 1, "the caller's tls.Config is not mutated")
+	vAssert(tc.ServerName == callerSN && vBytesEq(tc.EncryptedClientHelloConfigList, callerECHSnap) && (tc.EncryptedClientHelloConfigList == nil) == (callerECH == nil) && len(tc.NextProtos) == 1, "the caller's tls.Config (and the bytes it refers to) is not mutated")
+	for i, h := range res.HTTPS {
+		addr := "10.0.0.1:443"
+		if i == 1 {
+			addr = "10.0.0.2:443"
+		}
+		vAssert(vBytesEq(h.ECH, echOf[addr]), "the resolution result's ECH config lists are not modified")
+	}
 	if err == nil {
 		vReach("connected")
 	} else {
